@@ -107,12 +107,14 @@ CHECKS = {
              'RUN LEVEL (runStepN_all): in the normal simulator, for any number of symbols, any set of timeframes per symbol and '
              'every strategy, after each iteration every symbol\'s store holds exactly its normalised input rows so far and '
              'satisfies the store invariant for every timeframe (so every reader gets one candle per started window, each the '
-             'aggregate of its minutes), or the run was stopped by an error. Tie: translator + store and '
+             'aggregate of its minutes), or the run was stopped by an error; runSkipN_all states the same for the FAST simulator '
+             '(chunks of step minutes, per-minute matching inside a chunk, add_multiple_1m_candles, generation at the chunk end) '
+             'for timeframes that are multiples of the chunk size. Tie: translator + store and '
              'whole-session correspondence; oracle on real sessions reads every timeframe at every hook (liquidation hooks '
              'included) in both simulators.',
         technique='Lean 4 theorems over generated aggregation + hand store and engine models (window decomposition, invariant, write protocol, frame for the strategy layer); correspondence; every-hook session oracle',
         ref='4 (C07), 8.2',
-        note='Not yet theorems: the fast simulator\'s run-level composition, warm-up injection (evidence.unproved; decided by correspondence + the every-hook oracle).'),
+        note='Not yet theorems: warm-up injection; that gcd of the route timeframes divides each of them is assumed in runSkipN_all (evidence.unproved).'),
     'C08': dict(
         text='Proof over the definition of split_candle REGENERATED from the source on every run: it equals the cut of the '
              'continuous O-L-H-C / O-H-L-C path at the first visit of the price (full functional spec), hence valid parts, '
